@@ -521,8 +521,8 @@ func (e *Engine) findCompositeSearcher(haystack []byte) *Match {
 	if e.compositeSearcher == nil {
 		return e.findNFA(haystack)
 	}
-	atomic.AddUint64(&e.stats.NFASearches, 1) // Count as NFA-family for stats
-	start, end, found := e.compositeSearcher.Search(haystack)
+	// Prefers the linear CompositeSequenceDFA over the unmemoized backtracker
+	start, end, found := e.findIndicesCompositeSearcher(haystack)
 	if !found {
 		return nil
 	}
@@ -534,8 +534,7 @@ func (e *Engine) findCompositeSearcherAt(haystack []byte, at int) *Match {
 	if e.compositeSearcher == nil {
 		return e.findNFAAt(haystack, at)
 	}
-	atomic.AddUint64(&e.stats.NFASearches, 1)
-	start, end, found := e.compositeSearcher.SearchAt(haystack, at)
+	start, end, found := e.findIndicesCompositeSearcherAt(haystack, at)
 	if !found {
 		return nil
 	}
